@@ -44,7 +44,7 @@ TNext ==
                /\ l' = l + 1
                /\ UNCHANGED <<bad, done>>
         ELSE /\ bad' = Append(bad, l)
-             /\ l' = NextSync(l)
+             /\ l' = IF Len(bad) >= 99 THEN N + 1 ELSE NextSync(l)   \* (the first 100 are reported)
              /\ st' = Cleared(st)
              /\ UNCHANGED done
   \/ /\ l = N + 1 /\ ~done
